@@ -76,6 +76,26 @@ ErrClasses == {"missingOptional", "missingMandatory", "notInProfile", "wrongProf
 \* An error is abstracted to the set of sentinels its chain reaches ({} = a foreign error).
 Filtered(isNil, cls) == isNil \/ "missingOptional" \in cls \/ "notInProfile" \in cls
 
+\* Go error chains, as built by the harness for the filter: chain[1] is the base (nil, one of the five root
+\* sentinels, a derived claim / field sentinel, or a foreign error), the rest are wrappers applied inside-out:
+\*   "w" %w   "ww" two %w   "join" / "joinFirst" errors.Join   "custom" a type with Unwrap() error   "multi" Unwrap() []error
+\*      - all keep the chain reachable for errors.Is
+\*   "v" %v   - flattens to text: nothing is reachable any more
+\*   "is"     - a type without Unwrap whose Is(target) reports target == the wrapped VALUE: only that very value matches
+RootOf(b) == CASE b \in ErrClasses -> {b}
+               [] b \in {"optClaim", "optField"} -> {"missingOptional"}
+               [] b \in {"manClaim", "manField"} -> {"missingMandatory"}
+               [] b \in {"claimNIP", "fieldNIP"} -> {"notInProfile"}
+               [] OTHER -> {}
+RECURSIVE ChainState(_, _)
+ChainState(chain, n) ==        \* [cls, exact]: classes errors.Is reaches; exact = the value IS a root sentinel
+  IF n = 1 THEN [cls |-> RootOf(chain[1]), exact |-> chain[1] \in ErrClasses]
+  ELSE LET inner == ChainState(chain, n - 1)  w == chain[n] IN
+       CASE w = "v"  -> [cls |-> {}, exact |-> FALSE]
+         [] w = "is" -> [cls |-> IF inner.exact THEN inner.cls ELSE {}, exact |-> FALSE]
+         [] OTHER    -> [cls |-> inner.cls, exact |-> FALSE]
+ChainClasses(chain) == IF chain[1] = "nil" THEN {} ELSE ChainState(chain, Len(chain)).cls
+
 \* ---------- sanity: tie the definitions to independent facts ----------
 ASSUME Cardinality({v \in 0..65535 : LifeCycleValid(v)}) = 7 * 256
 ASSUME \A s \in 0..6 : {v \in 0..65535 : LifeCycleState(v) = s} = (s * 4096)..(s * 4096 + 255)
